@@ -252,6 +252,7 @@ class SimPopen:
     def terminate(self):
         if self.returncode is None:
             self.rec['terminated'] = True
+            self.rec.setdefault('t_term', self._sim.clock.now)
             self._sim.ev('terminate', tag=self.tag, n=self.rec['n'], t=self._sim.clock.now)
             if not self._b.get('ignores_sigterm'):
                 self._terminated = True
